@@ -415,14 +415,15 @@ def main():
     if ck.replay:
         cases = [Case.parse(l) for l in open(ck.replay).read().split("\n") if l.strip() and not l.startswith("#")]
     else:
-        cases = gen_cases(rng, 700 if not big else 12000)
+        cases = gen_cases(rng, 2500 if not big else 30000)
         cdir = os.path.join(ROOT, "corpus", PID)
         if os.path.isdir(cdir):
             for f in sorted(os.listdir(cdir)):
                 cases += [Case.parse(l) for l in open(os.path.join(cdir, f)).read().split("\n") if l.strip() and not l.startswith("#")]
 
     def run_impl(cs, name):
-        outs = run_cases(exe, [[c.line()] for c in cs], os.path.join(tmpd, name))
+        # tiny matrices: one thread (OpenBLAS / OpenMP worker threads only spin, badly so on a loaded machine)
+        outs = run_cases(exe, [[c.line()] for c in cs], os.path.join(tmpd, name), env={"OMP_NUM_THREADS": "1", "OPENBLAS_NUM_THREADS": "1"})
         return [(o[0] if o else "CRASH rc=%s %s" % (rc, e.strip()[-200:])) for (o, rc, e) in outs]
 
     def run_model(cs, name):
